@@ -27,6 +27,10 @@ pub struct SetupV {
     pub push_msat: u64,
     /// 0 none, 1 wallet script (path 7), 2 foreign script that is allowlisted at setup time
     pub upfront: u8,
+    /// the chain-aware validator (as vlsd installs it) instead of the simple one; the funding
+    /// transaction is confirmed right after the set-up
+    #[serde(default)]
+    pub onchain: bool,
 }
 
 impl SetupV {
@@ -39,6 +43,7 @@ impl SetupV {
             funding_alt: false,
             value: CHANNEL_VALUE,
             push_msat: if outbound { 0 } else { 1_000_000_000 },
+            onchain: false,
             upfront: 0,
         }
     }
@@ -87,6 +92,11 @@ pub fn make_setup(w: &World, cp: &Cp, v: &SetupV) -> ChannelSetup {
 
 /// new_channel + setup_channel through the public API
 pub fn open(cfg: WorldCfg, v: &SetupV) -> Result<Chan, String> {
+    let mut cfg = cfg;
+    if v.onchain {
+        cfg.onchain = true;
+        cfg.oracle_pubkeys = vec![crate::chain::oracle_pub(0)];
+    }
     let w = World::new(cfg);
     let cp = Cp::new(110);
     match w.new_channel(DBID) {
@@ -94,7 +104,21 @@ pub fn open(cfg: WorldCfg, v: &SetupV) -> Result<Chan, String> {
         o => return Err(format!("new_channel: {}", o.tag())),
     }
     let holder_pubkeys = w.holder_basepoints(DBID).ok_or("no basepoints")?;
-    let setup = make_setup(&w, &cp, v);
+    let mut setup = make_setup(&w, &cp, v);
+    let mut onchain_funding = None;
+    if v.onchain {
+        // a first block (proofs are checked from then on) and a funding transaction that can
+        // really be confirmed
+        let mut chain = w.new_sim_chain();
+        let b = crate::chain::make_block(&chain.tip().0, chain.height() + 1, 0, vec![]);
+        if !w.connect(&mut chain, b, crate::chain::Delivery::Compact).is_ok() {
+            return Err("first block refused".into());
+        }
+        let script = ChanParams { setup: setup.clone(), holder_pubkeys: holder_pubkeys.clone() }.funding_redeemscript().to_p2wsh();
+        let ftx = crate::chain::simple_tx(vec![OutPoint { txid: Txid::from_slice(&[0x71; 32]).unwrap(), vout: if v.funding_alt { 3 } else { 0 } }], vec![(setup.channel_value_sat, script)], 0);
+        setup.funding_outpoint = OutPoint { txid: ftx.compute_txid(), vout: 0 };
+        onchain_funding = Some((ftx, chain));
+    }
     let id = w.channel_id(DBID);
     let node = w.node.clone();
     let s2 = setup.clone();
@@ -102,6 +126,12 @@ pub fn open(cfg: WorldCfg, v: &SetupV) -> Result<Chan, String> {
     match call(move || node.setup_channel(id, None, s2, &path).map(|_| ()).map_err(|e| status_kind(&e))) {
         Outcome::Ok(_) => {}
         o => return Err(format!("setup_channel: {}", o.tag())),
+    }
+    if let Some((ftx, mut chain)) = onchain_funding {
+        let b = crate::chain::make_block(&chain.tip().0, chain.height() + 1, 1, vec![ftx]);
+        if !w.connect(&mut chain, b, crate::chain::Delivery::Compact).is_ok() {
+            return Err("funding block refused".into());
+        }
     }
     let params = ChanParams { setup: setup.clone(), holder_pubkeys };
     Ok(Chan { w, cp, setup, params, v: v.clone() })
